@@ -112,7 +112,7 @@ func vHavocCount(text string) int {
 //symgo:redirect github.com/tsawler/tabula/rag.countWords vHavocCount
 //symgo:redirect github.com/tsawler/tabula/rag.countSentences vHavocCount
 //symgo:redirect github.com/tsawler/tabula/rag.countParagraphs vHavocCount
-//symgo:desc text of 260 quick / 420 thorough bytes: every 50th byte is a space; bytes at i%25==24 symbolic over {a, space}; all others symbolic over {a, '.'} (quick) or {a, '.', newline} (thorough); word/sentence/paragraph counters havoc'd; Max = 200 characters or 50 tokens (TokensPerChar 0.25), hard: every piece has at most 200 bytes / 50 estimated tokens
+//symgo:desc text of 260 quick / 420 thorough bytes: every 50th byte is a space; bytes at i%25==24 symbolic over {a, space}; all others symbolic over {a, '.'} (quick) or {a, '.', newline} (thorough); word/sentence/paragraph counters havoc'd; Max = 200 characters, 50 tokens at TokensPerChar 0.25 or 100 tokens at TokensPerChar 0.5 (enumerated), hard: every piece has at most 200 bytes / 50 estimated tokens
 func H_C13_hard_max() {
 	n := 260
 	if vTier() > 0 {
@@ -136,6 +136,11 @@ func H_C13_hard_max() {
 	tokens := vAnyIntIn(0, 1) == 1
 	if tokens {
 		cfg.Max = SizeLimit{Value: 50, Unit: SizeUnitTokens, Type: LimitTypeHard}
+		if vAnyIntIn(0, 1) == 1 {
+			// a denser token estimate (2 bytes per token): the same 200-byte ceiling, spelled as 100 tokens
+			cfg.TokensPerChar = 0.5
+			cfg.Max.Value = 100
+		}
 	} else {
 		cfg.Max = SizeLimit{Value: 200, Unit: SizeUnitCharacters, Type: LimitTypeHard}
 	}
@@ -143,7 +148,7 @@ func H_C13_hard_max() {
 	pieces := sc.SplitToSize(text, nil)
 	for _, p := range pieces {
 		if tokens {
-			vAssert("within-hard-max-tokens", sc.EstimateTokens(p) <= 50)
+			vAssert("within-hard-max-tokens", sc.EstimateTokens(p) <= cfg.Max.Value)
 		} else {
 			vAssert("within-hard-max-characters", len(p) <= 200)
 		}
